@@ -4,6 +4,7 @@ import (
 	"fmt"
 
 	colarspb "github.com/open-telemetry/otel-arrow/api/experimental/arrow/v1"
+	"github.com/open-telemetry/otel-arrow/pkg/otel/arrow_record"
 
 	"sort"
 	"strings"
@@ -36,8 +37,8 @@ func witness(h *History, k int, o OptSet, extra map[string]any) map[string]any {
 
 // roundTripHistory sends h through one stream and compares every decoded batch with what
 // was encoded. Returns the stream (already closed) for further inspection.
-func roundTripHistory(c *vc.Case, h *History, o OptSet, prop string) *Stream {
-	s := NewStream(o)
+func roundTripHistory(c *vc.Case, h *History, o OptSet, prop string, copts ...arrow_record.Option) *Stream {
+	s := NewStream(o, copts...)
 	containers := 0
 	// How far the producer runs ahead of the consumer: 0 = lock step, 1 = one batch ahead,
 	// 1<<30 = the whole history is encoded before anything is decoded. A returned
@@ -176,8 +177,8 @@ func rtMeta(sig string, carve []string) vc.Meta {
 		Rule:        "case = one stream history of " + sig + " batches (phase scripts: random / zero-then-nonzero / nonzero-then-zero / repeat / ramp / singles / sparse-nonzero / empty-mix, or an adversarial near-identical-container template) sent through one Producer/Consumer pair; every batch decoded and compared as a canonical multiset. Non-trivial = >=2 batches, or >=1 schema update observed, or >=2 distinct containers. Distinct = distinct fingerprint (script, #batches, #containers, set of optional columns that appeared, #schema updates).",
 		Assumptions: rtAssumptions,
 		Gates: map[string]map[string]int{
-			"quick":    {"obs.schema_update": 50, "optional_columns_seen_appearing": 20, "batches": 500, "near_limit_batches": 6},
-			"thorough": {"obs.schema_update": 500, "optional_columns_seen_appearing": 22, "batches": 10000, "near_limit_batches": 18},
+			"quick":    {"obs.schema_update": 50, "optional_columns_seen_appearing": 20, "batches": 500, "near_limit_batches": 6, "long_stream_batches": 800},
+			"thorough": {"obs.schema_update": 500, "optional_columns_seen_appearing": 22, "batches": 10000, "near_limit_batches": 18, "long_stream_batches": 9000},
 		},
 		Excluded: carve,
 	}
@@ -218,6 +219,24 @@ func runRoundTrip(t *testing.T, prop string, sig canon.Signal) {
 		roundTripHistory(c, h, o, prop)
 		c.Count("near_limit_batches", int64(h.Len()))
 		c.Sample(map[string]any{"script": h.Script, "options": o.String()})
+	})
+	// long streams: hundreds of batches through one producer/consumer pair. Values come from small pools,
+	// so what the stream legitimately retains (dictionaries) stays small; the consumer runs with a memory
+	// limit (4 MiB) more than ten times above that (measured peak on the repaired tree: 0.15-0.25 MiB), which a valid stream must therefore never hit
+	r.Layer("long-stream", e.Pick(2, 6), func(c *vc.Case) {
+		g := gen.New(c.R, gen.DValid)
+		g.Carve = carve
+		nb := e.Pick(400, 1500)
+		h := &History{Script: fmt.Sprintf("long-stream(%d batches)", nb), N: nb}
+		h.Gen = func(k int) Batch {
+			g.ZeroBias = []float64{0.2, 0.5, 0.8}[k%3]
+			return genBatch(g, sig, 10+c.R.IntN(30))
+		}
+		m := NewRecMeter()
+		roundTripHistory(c, h, DefaultOpts(), prop, arrow_record.WithMemoryLimit(4<<20), arrow_record.WithMeterProvider(m))
+		c.Count("long_stream_batches", int64(nb))
+		c.Max("max_consumer_memory_inuse_on_a_long_stream_bytes", m.InuseMax)
+		c.Sample(map[string]any{"script": h.Script, "consumer_memory_limit": 4 << 20, "max_consumer_memory_inuse": m.InuseMax})
 	})
 	r.Layer("big", e.Pick(6, 30), func(c *vc.Case) {
 		g := gen.New(c.R, gen.DValid)
